@@ -318,3 +318,24 @@ Ltac norm3 :=
   cbv zeta; rewrite ?out_shape_spec_3, ?src_spec_3; cbv zeta; rewrite ?dst_spec_3; cbv zeta; rewrite ?src_spec_3; cbv zeta;
   cbn [index_of Z.eqb Pos.eqb Z.add Pos.add]; znth_red; cbn [snd fst]; unfold flipv; cbn [Z.eqb Pos.eqb]; znth_red.
 
+
+(* slicing only the non-spatial axes (img.slicer[..., 0], [:, :, :, 1:]) leaves the affine alone *)
+Lemma mat_mul_T3_id A n0 n1 n2 : rows4 A -> mat_mul A (T3 (0, n0, 1) (0, n1, 1) (0, n2, 1)) = A.
+Proof.
+  intros HA. unfold mat_mul. rewrite <- (map_id A) at 2. apply map_ext_in. intros r Hr.
+  unfold rows4 in HA. rewrite Forall_forall in HA. destruct (len4 r (HA r Hr)) as (a & b & c & d & ->).
+  cbn [T3 ncols length seq map mcol nth dot fst snd]. list_eq.
+Qed.
+
+Lemma nonspatial_slicing_keeps_affine A shape ix crest : rows4 A -> (3 <= length shape)%nat ->
+  check_slicing ix shape = Ok5 (CSl sl_none :: CSl sl_none :: CSl sl_none :: crest) ->
+  ix_valid shape (CSl sl_none :: CSl sl_none :: CSl sl_none :: crest) ->
+  slice_affine A shape ix = Ok5 A.
+Proof.
+  intros HA Hr Hc Hv.
+  destruct (slicer_affine_world A shape ix _ HA Hr Hc Hv) as
+    (n0 & n1 & n2 & rest & s0 & s1 & s2 & cr & _ & E & H & _).
+  injection E as <- <- <- _. cbv zeta in H. rewrite H. f_equal.
+  change (adjust n0 sl_none) with (0, n0, 1). change (adjust n1 sl_none) with (0, n1, 1).
+  change (adjust n2 sl_none) with (0, n2, 1). now apply mat_mul_T3_id.
+Qed.
